@@ -18,7 +18,8 @@ un <floor|ceil|round|sqrt|abs> <bits> -> <bits> | nan
 ```
 `pol=a`: process execution allowed (only `/bin/true`, `/bin/false`, `echo` are known to the model's
 `runProc`); `pol=d`: denied.  The model runs with `lookup := dynamic` (an extra head field
-`lookup=lexical` selects the lexical reference mode), the given plan, `panics := false` (the current
+`lookup=lexical` selects the lexical reference mode, `lookup=wholestack` the whole-stack search by
+`LocalId` of the code before the D-04 fix), the given plan, `panics := false` (the current
 code: the D-06/D-04 sites are runtime errors; `panics=pinned` replays the originally pinned tree).
 -/
 namespace NaijaVerif.Driver.RunD
@@ -86,7 +87,9 @@ def answerRun (head ast : String) : String :=
   match words head with
   | _ :: _src :: pol :: plan :: more =>
     -- `lookup=lexical` (testing aid): run the reference lookup mode instead of the code's
-    let mode : LookupMode := if more.contains "lookup=lexical" then .lexical else .dynamic
+    let mode : LookupMode :=
+      if more.contains "lookup=lexical" then .lexical
+      else if more.contains "lookup=wholestack" then .dynamicWholeStack else .dynamic
     match parsePlan ((plan.drop 5).toString), AstIO.readBlock ast with
     | some pl, some blk =>
       let cfg : RunCfg :=
